@@ -344,10 +344,12 @@ fn run_in(dir: &std::path::Path, ops: &[DOp]) -> String {
 // constraints, SET / DROP NOT NULL in autocommit or in a session that commits; ADD / DROP COLUMN on empty tables;
 // DML around them; reopen.  Finding features (at most one per case):
 //   alter_populated       ADD / DROP COLUMN on a table that has rows                      (region)
-//   drop_in_open_txn      DROP TABLE inside a session that rolls back, or while another open session reads it   (region)
+//   drop_in_open_txn      DROP TABLE inside a session that rolls back, or while another open session reads it   (clean since
+//                         main's 3729a46: the tree stays until VACUUM)
 //   index_ddl_rollback    CREATE UNIQUE INDEX / ADD CONSTRAINT inside a session that rolls back                   (region)
 //   alter_rollback        other ALTER inside a session that rolls back       (flag updateKeepsInserterXmin)
-//   concurrent_create     two open sessions create the same name             (flag uniqueNotRecheckedAtCommit)
+//   concurrent_create     two open sessions create the same name: the second committer is refused (fix 6e47b6b), but its
+//                         entry replaced the first one's in the name index — the committed table no longer resolves  (region)
 
 #[derive(Clone)]
 struct GTable {
@@ -408,9 +410,10 @@ fn gen_c15(rng: &mut Rng, out: &mut Vec<Case>) {
         _ => "concurrent_create",
     };
     let n_steps = rng.range(4, 9);
-    // catalog entries created so far (tables, unique indexes, warm-up); most cases stay below the point where the
-    // meta page fills up (see `catalog_pressure` below), a few are allowed beyond it
-    let cap: i64 = if rng.chance(1, 25) { 100 } else { 5 };
+    // catalog entries created so far (tables, unique indexes, warm-up).  Until main's 9fb3e8e (key-only dividers in
+    // the B+tree) a catalog entry growing in a full meta page broke the catalog tree and cases had to stay below six
+    // entries; now one case in three may grow the catalog as far as its steps allow.
+    let cap: i64 = if rng.chance(1, 3) { 100 } else { 5 };
     let created = |ops: &Vec<String>| -> i64 {
         let mut n = 1;
         for blk in ops {
@@ -677,10 +680,8 @@ fn gen_c15(rng: &mut Rng, out: &mut Vec<Case>) {
             }
         }
     }
-    // catalog pressure (region): the meta table's page gets full after about six catalog entries (tables, unique
-    // indexes, the warm-up table); a catalog entry growing after that point corrupts the catalog tree
-    // (`Expected overflow frame`, every name stops resolving) — a B+tree defect reported separately.
-    // Conservative predictor: the largest number of catalog entries ever alive in the case.
+    // descriptive tag `catalog_pressure` (clean since 9fb3e8e): six or more catalog entries (tables, unique indexes, the
+    // warm-up table) were alive in the case, i.e. catalog entries grow in a full meta page
     let line = ops.join(" ; ");
     let mut alive: i64 = 1;
     let mut peak: i64 = 1;
@@ -696,17 +697,10 @@ fn gen_c15(rng: &mut Rng, out: &mut Vec<Case>) {
         }
         peak = peak.max(alive);
     }
-    let has_feature = ["alter_populated", "drop_in_open_txn", "index_ddl_rollback", "alter_rollback", "concurrent_create"]
-        .iter()
-        .any(|f| tags.iter().any(|t| t == *f));
     if peak >= 6 {
-        if has_feature {
-            // a case carries at most one finding feature: this one is not emitted
-            return;
-        }
         tags.push("catalog_pressure".into());
     }
-    let kf = ["alter_populated", "drop_in_open_txn", "index_ddl_rollback", "alter_rollback", "concurrent_create", "catalog_pressure"]
+    let kf = ["alter_populated", "index_ddl_rollback", "alter_rollback", "concurrent_create"]
         .iter()
         .find(|f| tags.iter().any(|t| t == *f));
     match kf {
